@@ -674,18 +674,18 @@ def _srcgen_stream():
 # runner
 
 N_SHARDS = 16
-# draws per shard (quick, thorough); a draw yields 1-5 templates (quick ~ 800 templates per shard, thorough ~ 12 000).
-# Measured single-process CPU cost per template: generation 4-8 ms, classification 2-5 ms, 7 x 2 compilations in the
-# workers ~ 20 ms, worker start-up 7 x 0.15 s per batch; all in all ~ 45 ms on a quiet machine (quick ~ 600 CPU-s,
-# thorough ~ 9 000 CPU-s), up to 110 ms on the saturated one.
+# draws per shard (quick, thorough); a draw yields 1-5 templates (quick ~ 1 250 templates per shard, thorough ~ 20 000).
+# Measured CPU cost per template on a quiet machine, everything included (generation 4-8 ms, classification 2-5 ms,
+# 7 x 2 compilations in the workers, worker start-up 7 x 0.15 s per batch): ~ 27 ms, i.e. quick ~ 550 CPU-s and
+# thorough ~ 9 000 CPU-s; on the saturated machine the same work took up to 110 ms per template.
 SIZES = {
-    "stmt": (140, 1500),
-    "inherit": (45, 500),
-    "modules": (54, 600),
-    "local": (130, 1400),
-    "dense": (225, 2500),
-    "expr": (75, 800),
-    "grammar": (75, 800),
+    "stmt": (225, 2400),
+    "inherit": (72, 800),
+    "modules": (86, 950),
+    "local": (208, 2250),
+    "dense": (360, 4000),
+    "expr": (120, 1300),
+    "grammar": (120, 1300),
 }
 
 
